@@ -131,6 +131,7 @@ fn pages_of(gpa: u64, len: u64) -> BTreeSet<u64> {
 
 pub fn run(sim: &Sim, cfg: &RunCfg) -> RunOut {
     sim.choose_policy();
+    swarm_short_io(sim);
     sim.st().hot = vec!["bitmap.fetch_or", "bitmap.read", "bitmap.write"];
     let mode = cfg.index % 3;
     let mut pool = FilePool::new();
